@@ -103,6 +103,10 @@ def check(ctx):
     # are file positions (rule of C10): statistics are summed over them
     from .C10 import check_rows_are_file_positions
     check_rows_are_file_positions(ctx)
+    # the tree handed to the front ends (and written next to the
+    # statistics) is not edited through what its accessors return
+    from ..rules.escape import check_tree_state_not_mutated
+    check_tree_state_not_mutated(ctx)
     from .C05 import check_tiles
     check_tiles(ctx, ('diff_exp.precompute_from_anndata',
                       'diff_exp.precompute_utils'), floor=1)
